@@ -30,6 +30,9 @@ type c02case struct {
 	D      string
 	Digest string
 	Stream []string
+	// Served: the nonce stream is delivered by a servedReader (answers produced by another goroutine while the caller's
+	// stack is moved) and the call is made on a fresh goroutine
+	Served bool
 }
 
 func c02solve(kinds []string, keyClass, eClass string) (c c02case, ok bool) {
@@ -164,6 +167,14 @@ func c02solve(kinds []string, keyClass, eClass string) (c c02case, ok bool) {
 }
 
 func c02eval(r *vx.R, c c02case) {
+	if !c.Served {
+		c02evalOne(r, c)
+	}
+	c.Served = true
+	c02evalOne(r, c)
+}
+
+func c02evalOne(r *vx.R, c c02case) {
 	r.Eval(1)
 	d, e := vx.UnHex(c.D), vx.UnHex(c.Digest)
 	var cands [][]byte
@@ -176,7 +187,12 @@ func c02eval(r *vx.R, c c02case) {
 	rd := stream(cands...)
 	var rr, ss []byte
 	var err error
-	kind, msg := vx.Try(func() { rr, ss, err = sm2.SignHashed(rd, d, e) })
+	var kind, msg string
+	if c.Served {
+		onFresh(func() { kind, msg = vx.Try(func() { rr, ss, err = sm2.SignHashed(&servedReader{inner: rd}, d, e) }) })
+	} else {
+		kind, msg = vx.Try(func() { rr, ss, err = sm2.SignHashed(rd, d, e) })
+	}
 	if kind != "" {
 		r.Violation("sign:panic", fmt.Sprintf("SignHashed panicked (kinds %v): %s", c.Kinds, msg), c)
 		return
@@ -207,7 +223,7 @@ func c02eval(r *vx.R, c c02case) {
 	if len(rr) != 32 || len(ss) != 32 {
 		r.Violation("sign:length", fmt.Sprintf("r,s lengths %d,%d", len(rr), len(ss)), c)
 	}
-	r.Shape(fmt.Sprintf("%v:%s:%s", c.Kinds, c.Key, c.E))
+	r.Shape(fmt.Sprintf("%v:%s:%s:served=%v", c.Kinds, c.Key, c.E, c.Served))
 }
 
 type c02bad struct {
